@@ -38,14 +38,14 @@ LEVEL = "exploration"
 TECHNIQUE = "complete enumeration of the PDU-type x flag space against the routing table and an admission/route agreement oracle"
 LEVEL_TEXT = (
     "The whole finite space of the statement (9 PDU kinds x direction flag x mode x 4 id widths x CRC "
-    "flag x large-file flag, each offered to a sender in 4 steps and a receiver idle and busy, plus the "
+    "flag x large-file flag x {constructed object, serialised and parsed again}, each offered to a sender in 4 steps and a receiver idle and busy, plus the "
     "inactive-EOF acknowledgement helper over every condition code and status) is executed; "
     "coverage.exhaustive is true for that space."
 )
 LEVEL_NOTE = "Ids and sequence numbers are always the right ones, so only type and direction decide; trusts spacepackets' PDU classes."
 RULE = (
     "product of {FD, MD, EOF, FIN, ACK(EOF), ACK(FIN), NAK, PROMPT, KA} x direction flag x mode x id width "
-    "{1,2,4,8} x CRC flag x large-file flag; each PDU is routed (context 'route') and offered to a fresh "
+    "{1,2,4,8} x CRC flag x large-file flag x {object, reparsed from bytes}; each PDU is routed (context 'route') and offered to a fresh "
     "SourceHandler in the steps after-metadata / mid-file / awaiting-EOF-ACK / awaiting-Finished and to a fresh "
     "DestHandler idle / busy; plus acknowledge_inactive_eof_pdu over condition codes x statuses x widths x CRC. "
     "Every case is non-trivial (each decides one table cell); distinct = distinct (PDU, context) tuple."
@@ -211,7 +211,10 @@ def evaluate(case):
     from cfdppy.exceptions import InvalidPduForDestHandler, InvalidPduForSourceHandler
 
     pdu = build_pdu(c)
-    label = f"{c['kind']} dir={c['dir']} mode={c['mode']} w={c['w']} crc={c['crc']} large={c['large']}"
+    if c.get("wire"):
+        # what a real link delivers: the PDU serialised and parsed again (plain ints where the constructor has enums)
+        pdu = sim.transport(pdu, "wire")
+    label = f"{c['kind']} dir={c['dir']} mode={c['mode']} w={c['w']} crc={c['crc']} large={c['large']} {'reparsed' if c.get('wire') else 'object'}"
     try:
         dest = get_packet_destination(pdu)
     except Exception as e:  # noqa: BLE001
@@ -304,8 +307,8 @@ def replay(case):
 
 
 def all_cases():
-    for kind, d, mode, w, crc, large in itertools.product(KINDS, "RS", ["ACK", "NAK"], [1, 2, 4, 8], [False, True], [False, True]):
-        base = {"kind": kind, "dir": d, "mode": mode, "w": w, "crc": crc, "large": large}
+    for kind, d, mode, w, crc, large, wire in itertools.product(KINDS, "RS", ["ACK", "NAK"], [1, 2, 4, 8], [False, True], [False, True], [False, True]):
+        base = {"kind": kind, "dir": d, "mode": mode, "w": w, "crc": crc, "large": large, "wire": wire}
         for ctx in ["route"] + SRC_CTX + DST_CTX:
             yield {**base, "ctx": ctx}
     for cond, status, mode, w, crc in itertools.product(CONDS, STATUSES, ["ACK", "NAK"], [1, 2, 4, 8], [False, True]):
